@@ -61,3 +61,12 @@ Print Assumptions in_domain_needed.
 Theorem wfb_layouts_c01 : forall n, wfb n = true -> net_c01_okb n = true.
 Proof. exact wfb_layouts_c01_lemma. Qed.
 Print Assumptions wfb_layouts_c01.
+
+(* `canon` only prunes and sorts the tables of shared definitions: every definition the buses refer to (types, units,
+   enums, attributes, nodes, CAN-ID builders) is found in `canon n` exactly as in `n`.  With `load_save` this is the part
+   of "derived observables coincide" that concerns lookups: whatever is computed from the network through its
+   references sees the same definitions after the round trip.  (The observables themselves - GetCANID, Decode,
+   ExportBus - are compared Go-against-Go by the harness; they are not restated here.) *)
+Theorem lookup_agree : forall n, wfb n = true -> lookups_agree n.
+Proof. exact lookup_agree_lemma. Qed.
+Print Assumptions lookup_agree.
